@@ -311,6 +311,92 @@ def floatTextOK (t : Bytes) : Bool :=
   let body := if t.head? == some 45 then t.drop 1 else t
   body.any isDigitB && body.all (fun c => isDigitB c || c == 46)
 
+/-! ### runes (`utf8.DecodeRuneInString`, `unicode.IsSpace/IsLetter/IsDigit` as far as the model goes) -/
+
+def isCont (c : Nat) : Bool := 128 ≤ c && c ≤ 191
+
+/-- the rune at the head of a byte string and its width; `none` = `utf8.RuneError` (invalid, overlong,
+surrogate or truncated), which `DecodeRuneInString` reports with width 1 -/
+def decodeRune : Bytes → Option (Nat × Nat)
+  | [] => none
+  | c0 :: rest =>
+    if c0 < 128 then some (c0, 1)
+    else if 194 ≤ c0 && c0 ≤ 223 then
+      match rest with
+      | c1 :: _ => if isCont c1 then some ((c0 - 192) * 64 + (c1 - 128), 2) else none
+      | _ => none
+    else if 224 ≤ c0 && c0 ≤ 239 then
+      match rest with
+      | c1 :: c2 :: _ =>
+        let r := (c0 - 224) * 4096 + (c1 - 128) * 64 + (c2 - 128)
+        if isCont c1 && isCont c2 && 2048 ≤ r && !(55296 ≤ r && r ≤ 57343) then some (r, 3) else none
+      | _ => none
+    else if 240 ≤ c0 && c0 ≤ 244 then
+      match rest with
+      | c1 :: c2 :: c3 :: _ =>
+        let r := (c0 - 240) * 262144 + (c1 - 128) * 4096 + (c2 - 128) * 64 + (c3 - 128)
+        if isCont c1 && isCont c2 && isCont c3 && 65536 ≤ r && r ≤ 1114111 then some (r, 4) else none
+      | _ => none
+    else none
+
+/-- `unicode.IsSpace` for runes ≥ 0x80 -/
+def isSpaceRune (r : Nat) : Bool :=
+  r == 133 || r == 160 || r == 5760 || (8192 ≤ r && r ≤ 8202) || r == 8232 || r == 8233 || r == 8239 ||
+  r == 8287 || r == 12288
+
+inductive RuneClass where
+  | member      -- `unicode.IsLetter(r) || unicode.IsDigit(r)`: stays in a feature-ID token
+  | other       -- ends the token
+  | unknown     -- outside the model's table
+  deriving DecidableEq
+
+/-- a hand-written extract of the Unicode tables for runes ≥ 0x80 (the T3 facts cover the ASCII classes only;
+this table is tied to the code by the run alone): Latin-1 / Latin Extended / IPA letters, basic Greek and
+Cyrillic, hiragana, CJK unified ideographs, Hangul syllables, Linear B syllabary, mathematical alphanumerics
+(letters); Arabic-Indic and fullwidth digits; combining diacritics, `×` `÷`, general punctuation, emoticons
+(neither) -/
+def runeClass (r : Nat) : RuneClass :=
+  if (192 ≤ r && r ≤ 214) || (216 ≤ r && r ≤ 246) || (248 ≤ r && r ≤ 705) || (913 ≤ r && r ≤ 929) ||
+     (945 ≤ r && r ≤ 969) || (1040 ≤ r && r ≤ 1103) || (12353 ≤ r && r ≤ 12438) || (19968 ≤ r && r ≤ 40869) ||
+     (44032 ≤ r && r ≤ 55203) || (65536 ≤ r && r ≤ 65547) || (119808 ≤ r && r ≤ 119892) ||
+     (1632 ≤ r && r ≤ 1641) || (65296 ≤ r && r ≤ 65305) then .member
+  else if (768 ≤ r && r ≤ 879) || r == 215 || r == 247 || (8192 ≤ r && r ≤ 8303) || (128512 ≤ r && r ≤ 128591) ||
+     r == 133 || r == 160 || r == 5760 || r == 12288 then .other
+  else .unknown
+
+/-- the scan of `lexFeatureIDLiteral`, rune by rune: the token, what follows it, and whether a rune outside the
+model's table was met (`fuel` = the length of the text is always enough) -/
+def spanID : Nat → Bytes → Bytes × Bytes × Bool
+  | 0, s => ([], s, false)
+  | _ + 1, [] => ([], [], false)
+  | fuel + 1, c :: cs =>
+    if c < 128 then
+      if isIDByte c then
+        let (a, b, u) := spanID fuel cs
+        (c :: a, b, u)
+      else ([], c :: cs, false)
+    else
+      match decodeRune (c :: cs) with
+      | none => ([], c :: cs, false)                 -- RuneError is not a letter
+      | some (r, w) =>
+        match runeClass r with
+        | .member =>
+          let (a, b, u) := spanID fuel ((c :: cs).drop w)
+          ((c :: cs).take w ++ a, b, u)
+        | .other => ([], c :: cs, false)
+        | .unknown => ([], c :: cs, true)
+
+/-- every rune of a feature-ID token is one the lexer keeps in the token (and the model knows it) -/
+def idRunesOK : Nat → Bytes → Bool
+  | 0, s => s.isEmpty
+  | _ + 1, [] => true
+  | fuel + 1, c :: cs =>
+    if c < 128 then isIDByte c && idRunesOK fuel cs
+    else
+      match decodeRune (c :: cs) with
+      | none => false
+      | some (r, w) => runeClass r == .member && idRunesOK fuel ((c :: cs).drop w)
+
 /-- put a token in front of what the rest of the text lexes to -/
 def consTok (t : Tok) (pos len : Nat) : LR → LR
   | .ok ts => .ok (⟨t, pos, pos + len⟩ :: ts)
@@ -333,8 +419,8 @@ def lexFuel : Nat → Bytes → Nat → LR
         | [] => .err
         | _ :: after' => cont (.str body) (body.length + 2) after'
       else if c == 47 then
-        let (body, after) := spanWhile isIDByte s
-        if after.head?.any (· ≥ 128) then .unsupported else
+        let (body, after, unknown) := spanID s.length s
+        if unknown then .unsupported else
         match B6.Model.FeatureID.parseToken body with
         | some (f, false) => cont (.id f) body.length after
         | _ => .err
@@ -345,8 +431,9 @@ def lexFuel : Nat → Bytes → Nat → LR
         match scanNumber s true false with
         | none => .err
         | some (text, dec, after) =>
-          if after.head?.any (fun d => d == 194 || d == 225 || d == 226 || d == 227) then .unsupported else
-          if after.head?.any (· ≥ 128) then .err else
+          -- a non-ASCII rune right after the number: a Unicode digit goes on with the token (and `Atoi` /
+          -- `ParseFloat` reject it), anything but white space is a bad token
+          if after.head?.any (· ≥ 128) && !((decodeRune after).any fun (r, _) => isSpaceRune r) then .err else
           if dec then (if floatTextOK text then cont (.float text) text.length after else .err)
           else match B6.Model.FeatureID.atoi text with
             | some i => cont (.int i) text.length after
@@ -355,9 +442,10 @@ def lexFuel : Nat → Bytes → Nat → LR
         let (body, after) := spanWhile isSymbolRune s
         cont (.sym body) body.length after
       else if c ≥ 128 then
-        -- a non-ASCII rune outside a string is a `bad token`, unless it is Unicode white space
-        -- (U+0085, U+00A0, U+1680, U+2000…, U+3000: lead bytes C2, E1, E2, E3), which the model does not cover
-        if c == 194 || c == 225 || c == 226 || c == 227 then .unsupported else .err
+        -- a non-ASCII rune outside a string: Unicode white space is skipped, anything else is a `bad token`
+        match decodeRune s with
+        | some (r, w) => if isSpaceRune r then lexFuel fuel (s.drop w) (pos + w) else .err
+        | none => .err
       else .err
 
 def lex (s : Bytes) : LR := lexFuel (s.length + 1) s 0
@@ -675,9 +763,10 @@ def QL.printable (esc : Bool) : QL → Bool
   | .cons q qs => q.printable esc && qs.printable esc
 end
 
-/-- every byte of the ID's shell token is one the lexer keeps in a FEATURE_ID token -/
+/-- every rune of the ID's shell token is one the lexer keeps in a FEATURE_ID token -/
 def idLexable (f : FeatureID) : Bool :=
-  f.isValid && decide (f.value < 2 ^ 64) && (B6.Model.FeatureID.unparse f true).all isIDByte
+  f.isValid && decide (f.value < 2 ^ 64) &&
+    idRunesOK (B6.Model.FeatureID.unparse f true).length (B6.Model.FeatureID.unparse f true)
 
 def Lit.printable (esc : Bool) : Lit → Bool
   | .str s => esc || plain s
